@@ -10,7 +10,7 @@ import decimal
 import os
 import time
 
-NAMES = ['tz_sydney', 'dec_prec5_down', 'tz_london', 'np_print2', 'tz_pacific', 'dec_prec3_ceiling', 'cwd_root', 'tz_chatham']
+NAMES = ['tz_sydney', 'dec_prec5_down', 'tz_london', 'np_print2', 'tz_pacific', 'dec_prec3_ceiling', 'cwd_root', 'tz_chatham', 'logging_debug']
 _TZ = {'tz_sydney': 'AEST-10AEDT,M10.1.0,M4.1.0/3', 'tz_london': 'GMT0BST,M3.5.0/1,M10.5.0', 'tz_pacific': 'PST8PDT,M3.2.0,M11.1.0',
        'tz_chatham': '<+1245>-12:45<+1345>,M9.5.0/2:45,M4.1.0/3:45'}
 
@@ -57,6 +57,29 @@ def applied(name):
             yield
         finally:
             os.chdir(old)
+    elif name == 'logging_debug':
+        # the application has switched on debug logging for everything (logging.basicConfig(level=logging.DEBUG)) and collects the
+        # records: what a library logs, and whether it logs, is no input of its computations
+        import io
+        import logging
+        root = logging.getLogger()
+        old_level, old_disable = root.level, logging.root.manager.disable
+        h = logging.StreamHandler(io.StringIO())
+        h.setLevel(logging.DEBUG)
+        root.addHandler(h)
+        root.setLevel(logging.DEBUG)
+        logging.disable(logging.NOTSET)
+        named = [(lg, lg.level) for lg in logging.root.manager.loggerDict.values() if isinstance(lg, logging.Logger) and lg.name.startswith(('geodepy', 'api'))]
+        for lg, _ in named:
+            lg.setLevel(logging.NOTSET)
+        try:
+            yield
+        finally:
+            for lg, lv in named:
+                lg.setLevel(lv)
+            root.removeHandler(h)
+            root.setLevel(old_level)
+            logging.disable(old_disable)
     else:
         raise ValueError(name)
 
